@@ -343,9 +343,25 @@ Emit(t, v, w, o) ==
                                  v |-> EncVerdicts(t, v), vc |-> EncCaseVerdicts(t),
                                  w |-> w, o |-> o])>>)
     ELSE TRUE
+\* Serve as a table for the pipeline harness: for each kind of outcome and
+\* each behaviour of the upstream towards the name it is asked for, which name
+\* is asked ("h0" the queried one, "canon", "none"), whether the CNAME record
+\* and table addresses are in the answer, whose upstream records are appended,
+\* and the reply code.  Evaluated from Serve on symbolic names.
+ServeTable ==
+    LET h0 == <<"h0">>
+        k  == <<"canon">>
+        Sym(n) == IF n = NoName THEN "none" ELSE n[1]
+        Row(kind, o, m) ==
+            LET e == Serve(o, h0, "A", LAMBDA n : m) IN
+            [kind |-> kind, mode |-> m,
+             ask |-> IF e.ask = {} THEN "none" ELSE Sym((CHOOSE a \in e.ask : TRUE)[1]),
+             cname |-> e.cname # NoName, ips |-> e.ips # {}, fromup |-> Sym(e.fromup), rcode |-> e.rcode]
+    IN UNION {{Row("pass", Pass, m), Row("up", Rw(k, {}, TRUE), m), Row("local", Rw(k, {"i"}, FALSE), m)}
+              : m \in UpModes}
 Header == PrintT(<<"@@V", ToJson([hdr |-> 1, names |-> NameSeq,
                                   qnames |-> {NameIdx[n] : n \in QNames},
-                                  clauses |-> ClauseNames])>>)
+                                  clauses |-> ClauseNames, serve |-> ServeTable])>>)
 
 \* --------------------------------------------------------------- machine
 NoQ == [h |-> NoName, t |-> "A"]
@@ -406,8 +422,9 @@ ChaseStep == /\ stage = "chase"
 
 \* ------------------------------------------------------------ edit machine
 (***************************************************************************)
-(* One table that lives on and is edited through the three API calls, in   *)
-(* any order, any number of times (Mode = "hist").  TLC explores every     *)
+(* One table that lives on and is edited through the three API calls and   *)
+(* saved to the configuration file (which must not change it), in any      *)
+(* order, any number of times (Mode = "hist").  TLC explores every     *)
 (* table of at most MaxLen entries over HEntrySeq reachable by edits and   *)
 (* emits every edge [src, act, a, b, ok, dst]; Describe evaluates the      *)
 (* table reached (all statement invariants are therefore checked after     *)
@@ -449,6 +466,11 @@ HUpdate == /\ stage = "hist"
                 /\ tab' = r.tab
                 /\ EmitEdge("upd", old, EncEntry(new), r.ok, tab')
            /\ UNCHANGED <<stage, last, vt, wit, q, cs, out>>
+\* Saving the configuration: an edge from every table to itself.
+HSave == /\ stage = "hist"
+         /\ tab' = TabSave(tab)
+         /\ EmitEdge("save", HEntrySeq[1], <<>>, TRUE, tab')
+         /\ UNCHANGED <<stage, last, vt, wit, q, cs, out>>
 Describe == /\ stage = "hist"
             /\ stage' = "described"
             /\ vt' = Verdicts(tab)
@@ -461,7 +483,7 @@ Describe == /\ stage = "hist"
 HistoryIndependent == stage = "described" => vt = Verdicts(tab)
 
 Next == AddEntry \/ PickShape \/ PickFamily \/ PickQuery \/ ChaseStep
-          \/ HAdd \/ HDelete \/ HUpdate \/ Describe
+          \/ HAdd \/ HDelete \/ HUpdate \/ HSave \/ Describe
 
 Spec == Init /\ [][Next]_vars /\ WF_vars(ChaseStep)
 
